@@ -83,7 +83,7 @@ func (Engine) Run(t *tape.Tape, o eng.Opts) *eng.Result {
 	backing := sw.Weighted(4, 2, 3) // 0 http.Dir behind FaultFS, 1 MapFS behind FaultFS, 2 Directory option
 	faultFree := fg.Chance(350)
 	mutate := backing != 1 && !faultFree && sw.Intn(3) == 1
-	cfg := sched.Config{Sched: t.Stream("sched"), Time: t.Stream("time"), MaxSteps: 12000, KeepLog: o.Trace}
+	cfg := sched.Config{Sched: t.Stream("sched"), Time: t.Stream("time"), MaxSteps: world.StepCap(12000), KeepLog: o.Trace}
 	world.PickPolicy(sw, &cfg)
 
 	spec := &world.StaticSpec{Prefix: prefixes[gen.Weighted(3, 2, 3, 1, 1, 1)], Index: indexes[gen.Weighted(4, 2, 1, 1)], ETag: gen.Intn(2) == 1,
